@@ -44,6 +44,12 @@ def run(tier, seed):
             adl = [0, 1, 15, 16, 17, 31, 32, 33, 48, 64][tag % 10]
             line = "sstream %s %s %s - - %s D %s D" % (api, hx(key), hx(hdr), streamfam.tok_push(rng, tag % 19, adl, tag), streamfam.tok_push(rng, 3, 16 * (tag % 4), 0))
             cases.append(Case(line, cls="tag-byte/" + api, expect=streamfam.expect_history(line), meta={"why": "stream message with tag byte 0x%02x and %d bytes of associated data" % (tag, adl)}))
+    # message bodies beyond every small sweep: 64 KiB ∓ 1, 128 KiB + 1, an odd large one (thorough: 1 MiB + 1), two in a row per stream
+    for api in ("classic", "object", "mixed"):
+        for ml in ((65536, 65537, 131073) if tier == "quick" else (65535, 65536, 65537, 131072, 131073, 200001, (1 << 20) + 1)):
+            key, hdr = rbytes(rng, 32), rbytes(rng, 24)
+            line = "sstream %s %s %s - - %s D %s D" % (api, hx(key), hx(hdr), streamfam.tok_push(rng, ml, 3, 0), streamfam.tok_push(rng, ml + 7, 0, 3))
+            cases.append(Case(line, cls="large-message/" + api, expect=streamfam.expect_history(line), meta={"why": "stream messages of %d and %d bytes" % (ml, ml + 7)}))
     # associated data at and past the 16-bit boundary (its length enters the authenticator as a 64-bit word)
     for api in ("classic", "object", "mixed"):
         for adl in ((255, 256, 65535, 65536, 65537, 70000) if tier == "quick" else (255, 256, 257, 4095, 65535, 65536, 65537, 70000, 131072, 1 << 20)):
